@@ -149,3 +149,19 @@ Theorem C01_history_full :
     exists ds K cur, outs d w1 h ds /\ HI d user cs_size w K cur /\ flat K ++ cur = List.concat ds.
 Proof. exact history_main_full. Qed.
 Print Assumptions C01_history_full.
+
+(* ------------------------------------------------------------------ tie by translation: memcpy or bit-field macro *)
+(* The test of the top-level {% if %} of c/serialize-write-bit-array-statements.j2 and its in-byte offset rule,
+   REGENERATED from the Jinja2 AST on every run (tools/opt2coq.py -> Gen/OpTemplates.v), are the ones of
+   Layout.Model.ser (memcpy_path; static offset if any, else at mod 8) for every alignment, size and kind of
+   trace type: a field which may start inside a byte never takes the byte copy. *)
+From BT.Layout Require Import OpTemplateProofs.
+From BT.Gen Require Import OpTemplates.
+Theorem C01_memcpy_choice_is_the_translated_template :
+  forall nk al size, tmpl_memcpy_cond nk al size = memcpy_path nk al size.
+Proof. exact tmpl_memcpy_cond_is_model. Qed.
+Print Assumptions C01_memcpy_choice_is_the_translated_template.
+Theorem C01_macro_offset_is_the_translated_template :
+  forall off at1, tmpl_offset off at1 = match off with Some k => k | None => at1 mod 8 end.
+Proof. exact tmpl_offset_is_model. Qed.
+Print Assumptions C01_macro_offset_is_the_translated_template.
